@@ -9,7 +9,9 @@ import (
 
 var (
 	baseToks = []string{"b.err14", "b.bytes", "b.rat", "b.rd.g", "b.rd.c", "b.rd.e14", "b.ch.g", "b.ch.c", "b.ch.e5"}
-	opToks   = []string{"cs.l.d", "cs.r.d", "cs.l.r", "cs.r.r", "cc.l", "cc.r", "wt.0", "wt.10", "eh"}
+	opToks   = []string{"cs.l.d", "cs.r.d", "cs.l.r", "cs.r.r", "cc.l", "cc.r", "wt.0", "wt.10", "eh", "rp.l.r.0", "rp.r.d.10"}
+	// further variants of the replication pattern, used by the random programs only
+	moreOps = []string{"rp.r.r.10", "rp.l.d.0"}
 )
 
 func methodsFor(n int) [][]string {
@@ -27,7 +29,7 @@ func methodsFor(n int) [][]string {
 	}
 	return [][]string{{"size"}, {"iw"}, {"ra", "0", fmt.Sprint(l)}, {"ra", fmt.Sprint(off), fmt.Sprint(l)},
 		{"proto", fmt.Sprint(bigMax)}, {"bs", fmt.Sprint(bigMax)}, {"bs", fmt.Sprint(small)},
-		{"cr", "0", "all"}, {"cr", fmt.Sprint(off), "all"}, {"cr", "0", "close"}, {"rdr", "all"}, {"rdr", "close"}, {"discard"}}
+		{"cr", "0", "all"}, {"cr", fmt.Sprint(off), "all"}, {"cr", "0", "close"}, {"cr", "0", "one"}, {"rdr", "all"}, {"rdr", "close"}, {"discard"}}
 }
 
 func progScript(cfg string, toks []string, method []string) []string {
@@ -45,7 +47,7 @@ func progScript(cfg string, toks []string, method []string) []string {
 func countTasks(toks []string) int {
 	n := 0
 	for _, t := range toks {
-		if len(t) > 3 && t[:3] == "wt." {
+		if len(t) > 3 && (t[:3] == "wt." || t[:3] == "rp.") {
 			n++
 		}
 	}
@@ -105,7 +107,11 @@ func (e *env) programs() {
 			toks[0] = "b.ch.g"
 		}
 		for k := r.Range(1, 6); k > 0; k-- {
-			toks = append(toks, opToks[r.Intn(len(opToks))])
+			if r.Chance(1, 8) {
+				toks = append(toks, moreOps[r.Intn(len(moreOps))])
+			} else {
+				toks = append(toks, opToks[r.Intn(len(opToks))])
+			}
 		}
 		ms := methodsFor(n)
 		nt := countTasks(toks)
